@@ -178,6 +178,36 @@ def r4_pruning(run, F):
            "at a label, the variables of the label's layer that were *not* in scope at every goto are marked as possibly skipped")
 
 
+def r4b_identity_by_id(run, F):
+    """Names are not identities: a nested block may declare `a`, and the enclosing block may declare another `a` later.  The sets
+    that carry "which declarations were in scope at the goto" / "which may have been skipped" are keyed by the declaration's
+    resolution id.  In prepare_to_prune_at_goto what is collected from the variable stack is `identifier.resolution_id`, and in
+    prune_at_label the membership test is on `x.resolution_id`."""
+    def strip(e):
+        e = hirq.unwrap_trivial(e)
+        while e.get("k") in ("AddrOf", "Unary") and e.get("op") in (None, "Deref") or (e.get("k") == "MethodCall" and e.get("name") in ("clone", "to_owned", "to_string", "as_str")):
+            e = hirq.unwrap_trivial(e.get("e") or e.get("recv"))
+        return e
+    pg = F.body(AN + "prepare_to_prune_at_goto")
+    keys = []
+    for c in hirq.calls(pg["hir"]):
+        if c.get("k") == "MethodCall" and c.get("name") == "map" and c.get("a") and c["a"][0].get("k") == "Closure":
+            body = strip(c["a"][0]["body"])
+            if body.get("k") == "Field":
+                keys.append((body.get("name"), c))
+    run.ob("R4-IDENTITY-BY-ID", "prepare_to_prune_at_goto", len(keys) >= 1 and all(k == "resolution_id" for k, _ in keys), F.where(pg, keys[0][1]) if keys else F.where(pg),
+           "the variables in scope at a goto are collected by resolution id, not by name (a later declaration of the same name is another variable): %s" % [k for k, _ in keys])
+    pl = F.body(AN + "prune_at_label")
+    tests = []
+    for c in hirq.calls(pl["hir"]):
+        if c.get("k") == "MethodCall" and c.get("name") == "contains" and c.get("a"):
+            a0 = strip(c["a"][0])
+            if a0.get("k") == "Field":
+                tests.append((a0.get("name"), c))
+    run.ob("R4-IDENTITY-BY-ID", "prune_at_label", len(tests) >= 1 and all(k == "resolution_id" for k, _ in tests), F.where(pl, tests[0][1]) if tests else F.where(pl),
+           "whether a variable of the label's layer was in scope at every goto is asked by resolution id: %s" % [k for k, _ in tests])
+
+
 def r5_lookup(run, F):
     dv = F.body(AN + "declare_variable")
     loops = [m for m in hirq.matches(dv["hir"], msrc=None) if (m.get("msrc") or "").startswith("ForLoopDesugar")
@@ -344,6 +374,7 @@ def check(run):
     r2_order(run, F)
     r3_passes(run, F)
     r4_pruning(run, F)
+    r4b_identity_by_id(run, F)
     r5_lookup(run, F)
     r6_codes(run, F)
     r7_visit(run, F)
